@@ -82,6 +82,8 @@ class Repo:
         self.modules: dict[str, Module] = {}
         self.by_relpath: dict[str, Module] = {}
         self._load()
+        from . import home
+        home.register(self)
 
     # ------------------------------------------------------------------
     def _load(self):
@@ -180,6 +182,19 @@ class Repo:
         if f is None:
             raise AnalysisError(f"anchor vanished: function {relpath}::{qualname}")
         return f
+
+    def walk_with_tables(self, f: Func, node=None):
+        """ast.walk over (a part of) a function, followed by the value expressions of the module-level names it reads:
+        a literal table hoisted out of the function into a module constant is still `the function's table`"""
+        node = f.node if node is None else node
+        yield from ast.walk(node)
+        seen = set()
+        for n in ast.walk(node):
+            if isinstance(n, ast.Name) and isinstance(n.ctx, ast.Load) and n.id not in seen:
+                seen.add(n.id)
+                kind, obj = self.resolve_name(f.module, n.id)
+                if kind == "assign":
+                    yield from ast.walk(obj)
 
     def cls(self, relpath: str, name: str) -> Class:
         m = self.module(relpath)
